@@ -285,16 +285,27 @@ async fn body_multipart(_rqctx: RequestContext<()>, mut body: dropshot::Multipar
 /// {"op":"multipart_body","field_len":n,"default":n,"override":n|null} -> {"status","seen_max","body_len"}: one form field of
 /// `field_len` bytes; `seen_max` = field bytes the handler observed
 fn op_multipart_body(case: &Value) -> Value {
-    let n = case["field_len"].as_u64().unwrap() as usize;
     let default = case["default"].as_u64().unwrap() as usize;
     let mut e: ApiEndpoint<()> = ApiEndpoint::from(body_multipart);
     e.request_body_max_bytes = case["override"].as_u64().map(|x| x as usize);
     let mut api = ApiDescription::new();
     api.register(e).unwrap();
-    let mut payload = b"--B\r\nContent-Disposition: form-data; name=\"f\"\r\n\r\n".to_vec();
+    // boundary of the requested length; the field sized so that the whole body has exactly `body_len` bytes when that is given
+    let boundary: String = "B".repeat(case["boundary_len"].as_u64().unwrap_or(1).max(1) as usize);
+    let head = format!("--{}\r\nContent-Disposition: form-data; name=\"f\"\r\n\r\n", boundary).into_bytes();
+    let tail = format!("\r\n--{}--\r\n", boundary).into_bytes();
+    let n = match case["body_len"].as_u64() {
+        Some(total) => {
+            let total = total as usize;
+            if total < head.len() + tail.len() { return json!({"unbuildable": "body shorter than the form framing"}); }
+            total - head.len() - tail.len()
+        }
+        None => case["field_len"].as_u64().unwrap() as usize,
+    };
+    let mut payload = head.clone();
     payload.extend(std::iter::repeat(b'x').take(n));
-    payload.extend_from_slice(b"\r\n--B--\r\n");
-    let mut rq = format!("PUT /multipart HTTP/1.1\r\nHost: replay\r\nConnection: close\r\nContent-Type: multipart/form-data; boundary=B\r\nContent-Length: {}\r\n\r\n", payload.len()).into_bytes();
+    payload.extend_from_slice(&tail);
+    let mut rq = format!("PUT /multipart HTTP/1.1\r\nHost: replay\r\nConnection: close\r\nContent-Type: multipart/form-data; boundary={}\r\nContent-Length: {}\r\n\r\n", boundary, payload.len()).into_bytes();
     rq.extend_from_slice(&payload);
     SEEN_MAX.store(0, Ordering::SeqCst);
     let resp = crate::live::serve_raw(api, default, vec![vec![rq]]);
@@ -377,6 +388,8 @@ fn op_http_error(case: &Value) -> Value {
     let headers: Vec<(String, String)> = case["headers"].as_array().cloned().unwrap_or_default().iter()
         .map(|p| (p[0].as_str().unwrap().to_string(), p[1].as_str().unwrap().to_string())).collect();
     let hows: Vec<String> = case["headers"].as_array().cloned().unwrap_or_default().iter().map(|p| p[2].as_str().unwrap_or("add").to_string()).collect();
+    let clear_external = case["clear_external"].as_bool().unwrap_or(false);
+    let set_code: Option<String> = case["set_code"].as_str().map(|s| s.to_string());
     let r = crate::quiet(move || {
         let cs = || ClientErrorStatusCode::from_u16(status).expect("4xx");
         let mut e = match ctor.as_str() {
@@ -385,8 +398,18 @@ fn op_http_error(case: &Value) -> Value {
             "for_unavail" => HttpError::for_unavail(code, internal),
             "for_bad_request" => HttpError::for_bad_request(code, msg),
             "for_client_error_with_status" => HttpError::for_client_error_with_status(code, cs()),
+            "struct_literal" => HttpError {
+                status_code: dropshot::ErrorStatusCode::from_u16(status).expect("4xx/5xx"),
+                error_code: code,
+                external_message: msg,
+                internal_message: internal,
+                headers: None,
+            },
             _ => HttpError::for_not_found(code, internal),
         };
+        // the fields of an error are public: a handler can set them after construction
+        if clear_external { e.external_message = String::new(); }
+        if let Some(c) = &set_code { e.error_code = Some(c.clone()); }
         for (i, (n, v)) in headers.iter().enumerate() {
             if hows.get(i).map(|h| h == "with").unwrap_or(false) {
                 e = e.with_header(n.as_str(), v.as_str()).expect("header");
@@ -600,9 +623,12 @@ fn build_token(len: usize, decodes: bool, parses: bool) -> Result<String, String
 
 /// {"op":"token_in","len":n,"decodes":b,"parses":b} -> {"status": n}
 fn op_token_in(case: &Value) -> Value {
-    let t = match build_token(case["len"].as_u64().unwrap() as usize, case["decodes"].as_bool().unwrap(), case["parses"].as_bool().unwrap()) {
-        Ok(t) => t,
-        Err(e) => return json!({"unbuildable": e}),
+    let t = match case["token_text"].as_str() {
+        Some(t) => t.to_string(),
+        None => match build_token(case["len"].as_u64().unwrap() as usize, case["decodes"].as_bool().unwrap(), case["parses"].as_bool().unwrap()) {
+            Ok(t) => t,
+            Err(e) => return json!({"unbuildable": e}),
+        },
     };
     let q = format!("?{}", serde_urlencoded::to_string(&[("page_token", t.as_str())]).unwrap());
     match get_items(&q) {
@@ -837,6 +863,10 @@ fn payloads() -> Vec<Payload> {
         Payload { huge: u64::MAX as u128 + 1, ..base.clone() },
         Payload { huge: u128::MAX, neg: i128::MIN, small: u8::MAX, ..base.clone() },
         Payload { f: -0.0, map: [("k".to_string(), true)].into_iter().collect(), ..base.clone() },
+        // bodies of 64 KiB, 256 KiB and 1 MiB and beyond (whatever framing the body type uses internally)
+        Payload { name: "big-64k".into(), list: (0..9_000).collect(), ..base.clone() },
+        Payload { name: "big-256k".into(), list: (0..45_000).collect(), ..base.clone() },
+        Payload { name: "big-2m".into(), list: (0..300_000).collect(), ..base.clone() },
     ]
 }
 
@@ -911,6 +941,18 @@ struct Declared1 { #[serde(rename = "x-a")] a: String }
 #[derive(Serialize, JsonSchema)]
 struct Declared2 { #[serde(rename = "x-a")] a: String, #[serde(rename = "x-b")] b: String }
 
+/// a zero-sized marker type that serialises to a constant string, and a (therefore zero-sized) header struct made of it
+struct Nosniff;
+impl Serialize for Nosniff {
+    fn serialize<S: serde::Serializer>(&self, s: S) -> Result<S::Ok, S::Error> { s.serialize_str("nosniff") }
+}
+impl JsonSchema for Nosniff {
+    fn schema_name() -> String { "Nosniff".to_string() }
+    fn json_schema(g: &mut schemars::gen::SchemaGenerator) -> schemars::schema::Schema { String::json_schema(g) }
+}
+#[derive(Serialize, JsonSchema)]
+struct DeclaredZst { #[serde(rename = "x-zst")] z: Nosniff }
+
 /// {"op":"response_headers","declared":[names],"explicit":[names]}
 fn op_response_headers(case: &Value) -> Value {
     use dropshot::HttpResponse;
@@ -924,6 +966,18 @@ fn op_response_headers(case: &Value) -> Value {
     let body = dropshot::HttpResponseOk(7u32);
     // the values of the declared headers: "declared-<i>" unless given
     let dval = |i: usize| -> String { case["declared_values"][i].as_str().map(|s| s.to_string()).unwrap_or_else(|| format!("declared-{}", i)) };
+    if case["zero_sized"].as_bool().unwrap_or(false) {
+        let mut h = dropshot::HttpResponseHeaders::new(body, DeclaredZst { z: Nosniff });
+        add(h.headers_mut());
+        return match h.to_result() {
+            Err(e) => json!({"as_specified": false, "error": e.status_code.as_u16()}),
+            Ok(resp) => {
+                let (status, hs, _) = collect_body(resp);
+                let ok = status == 200 && hs.iter().any(|(k, v)| k == "x-zst" && v == "nosniff");
+                json!({"as_specified": ok, "status": status, "headers": hs})
+            }
+        };
+    }
     let r = match declared.len() {
         0 => { let mut h = dropshot::HttpResponseHeaders::new(body, Declared0 {}); add(h.headers_mut()); h.to_result() }
         1 => { let mut h = dropshot::HttpResponseHeaders::new(body, Declared1 { a: dval(0) }); add(h.headers_mut()); h.to_result() }
